@@ -65,6 +65,11 @@ pub fn refine(kind: Kind, buf: &[u8], cfg: u8, obs: &Obs, mst: St, msize: u64, m
             if obs.st == St::Partial && matches!(mst, St::Err(_)) {
                 props.push(11);
             }
+            match (obs.st, mst) {
+                (St::Complete(a), St::Complete(b)) if a != b => props.push(3),
+                (St::Partial, St::Complete(_)) => props.push(3),
+                _ => {}
+            }
             for p in props {
                 v.push(Violation { prop: p, oracle: "model-refinement", detail: format!("parse_chunk_size: implementation {} size={} but reference model {} size={}", show(&obs.st), obs.chunk, show(&mst), msize) });
             }
@@ -104,7 +109,13 @@ pub fn refine(kind: Kind, buf: &[u8], cfg: u8, obs: &Obs, mst: St, msize: u64, m
                 let p = if kind != Kind::Hdrs && (!model_in_headers || real_in_start) { start_prop } else { hdr_prop };
                 diffs.push((p, d.clone()));
                 if obs.st == St::Partial && matches!(mst, St::Err(_)) {
-                    diffs.push((11, d));
+                    diffs.push((11, d.clone()));
+                }
+                // where the head ends is C03's subject whatever the cause: a different n, or Partial
+                // although the reference model already sees the terminating empty line
+                match (obs.st, mst) {
+                    (St::Complete(_), St::Complete(_)) | (St::Partial, St::Complete(_)) => diffs.push((3, d)),
+                    _ => {}
                 }
             }
         }
